@@ -181,7 +181,13 @@ func genHistory(seed uint64, idx int, thorough bool) (spec.Run, c10Meta) {
 			e := add(spec.Op{Kind: "j2kenc", TS: "90", Info: in, Frames: genFrames(r, 1+r.Intn(2)), From: -1, Obj: slot, Enc: cfgs[slot-1]})
 			encs = append(encs, e)
 			src := spec.Pick(r, encs)
-			add(spec.Op{Kind: "j2kdec", TS: "90", Info: in, From: src, Obj: 1 + r.Intn(2), Dec: dec})
+			dop := spec.Op{Kind: "j2kdec", TS: "90", Info: in, From: src, Obj: 1 + r.Intn(2), Dec: dec}
+			if r.Chance(1, 3) {
+				// a torn read: the decode fails after the main header (and its MCT/ROI markers) was
+				// interpreted; the next decode on the same object must not see what it left behind
+				dop.Cut = 1 + r.Intn(48)
+			}
+			add(dop)
 		}
 	case "params-reuse":
 		// one typed parameters object: Encode, Decode (which may write into it), Encode again
@@ -572,7 +578,7 @@ func checkC10(o checkOpts) int {
 	b := NewBuild("plain")
 	logf("C10: VERIF_SEED=%d tier=%s tree=%s build=%.1fs", o.seed, o.tier, b.Tree, b.BuildS)
 	thorough := o.tier == "thorough"
-	nGen := o.n(336, 20000)
+	nGen := o.n(336, 8000)
 	sweepRounds := 1
 	if thorough {
 		sweepRounds = 8
@@ -764,7 +770,9 @@ func checkDeterminism(b *Build, rc *refCache, o checkOpts, findings []Finding) (
 			return
 		}
 		got := &res.Tasks[0][0]
-		if got.Err != e.res.Err || !framesEqual(got.Out, e.res.Out) || got.Steps != e.res.Steps {
+		// (step counts are deliberately not compared: they are not outputs, and a library that
+		// parallelises internally may legitimately take a different number of steps)
+		if got.Err != e.res.Err || !framesEqual(got.Out, e.res.Out) {
 			viols[i] = &Violation{Prop: "C10", Class: "I3", Sig: fmt.Sprintf("I3-nondeterministic: %s %s", e.op.Kind, opTarget(&e.op)),
 				Detail: fmt.Sprintf("the same operation alone in two fresh processes (GOMAXPROCS %d vs default) gave different results (steps %d vs %d)", run.Gomaxprocs, got.Steps, e.res.Steps),
 				Run:    run, Build: "plain"}
@@ -795,7 +803,7 @@ func hasSigC10(b *Build, run *spec.Run, rc *refCache, sig string) (bool, string)
 			return false, ""
 		}
 		x, y := &a.Tasks[0][0], &c.Tasks[0][0]
-		return x.Err != y.Err || !framesEqual(x.Out, y.Out) || x.Steps != y.Steps, ""
+		return x.Err != y.Err || !framesEqual(x.Out, y.Out), ""
 	}
 	res, info, err := runHistory(b, run)
 	if err != nil {
